@@ -140,3 +140,12 @@ func WaitPatient(done <-chan struct{}, healthy time.Duration) bool {
 	}
 	return false
 }
+
+var realWakeups, realReads int64
+
+// RealActivity counts what nbio does on REAL descriptors: epoll_wait calls that returned events (poller wake-ups) and
+// read/recvfrom calls. An idle engine makes none of either; a spinning poller or read task makes thousands per second
+// whatever the load of the machine — the load only slows the counting down.
+func RealActivity() (wakeups, reads int64) {
+	return atomic.LoadInt64(&realWakeups), atomic.LoadInt64(&realReads)
+}
